@@ -73,6 +73,8 @@ def gen_writer_session(rng, thorough=False, with_extra=True, version=None, fmt=N
                     small.array[kx] = np.array([rng.randrange(-50000, 50000) for _ in range(n)], dtype=np.int32)
                 rec = laspy.ScaleAwarePointRecord(small.array, small.point_format, np.array(h.scales) * rng.choice([1.0, 2.0, 0.5]),
                                                   np.array(h.offsets) + rng.choice([0.0, 1.0, -2.0]))
+            elif n == 1 and rng.random() < 0.4:
+                rec = rec[0]       # the 0-d one-point record that las.points[i] / iterating over a record yields
             ops.append(("P", rec, True))
         elif r < 0.76:
             ops.append(("P", wrong_format_points(rng, h, rng.choice([0, 1, 3])), False))
